@@ -200,6 +200,9 @@ func genRich(t *core.Tape, tier, prop string) *Scenario {
 			// is not linked into this binary
 			p.HErr.Details[t.Choose(len(p.HErr.Details), "detail.not.linked.which")].Kind = 4
 			sc.Notes["detail_type_not_linked"]++
+		} else if prop == "C02" && len(p.HErr.Details) > 0 && t.Bool(1, 8, "detail.no.json") {
+			p.HErr.Details[t.Choose(len(p.HErr.Details), "detail.no.json.which")].Kind = 5
+			sc.Notes["detail_without_json_form"]++
 		}
 		if shared && !p.HErr.Plain {
 			if p.HErr.Meta == nil {
@@ -435,10 +438,11 @@ func checkC02(w *World, st core.Status, r *RunResult) []Violation {
 			continue
 		}
 		tag := cfgTag(w, o)
-		notLinked := false
+		notLinked, noJSON := false, false
 		if p.HErr != nil && p.Raw == nil && w.Sc.Clients[p.Client].Proto == PConnect {
 			for _, d := range p.HErr.Details {
 				notLinked = notLinked || d.Kind == 4
+				noJSON = noJSON || d.Kind == 5
 			}
 		}
 		add := func(class, msg string) {
@@ -447,6 +451,10 @@ func checkC02(w *World, st core.Status, r *RunResult) []Violation {
 				// format spells details out in JSON, which needs the type)
 				class = "unlinked-detail-type"
 				msg = "the error carries a detail whose message type is not linked into the binary: " + msg
+			} else if noJSON {
+				// the same wire-format limitation, reached by another input
+				class = "detail-without-json-form"
+				msg = "the error carries a detail that protojson cannot spell out (a google.protobuf.Value with no kind set): " + msg
 			}
 			vs = append(vs, Violation{Class: "C02/" + class + "/" + tag, Msg: p.ID + ": " + msg})
 		}
